@@ -142,6 +142,9 @@ def run_bounds(pid, tier):
             perr = check_parse_positions(pl)
             for msg in perr:
                 res.violation(msg, {"detail": msg})
+            # ---- 4a. add_file with files outside the base directory
+            for msg in check_add_file_paths(pl):
+                res.violation(msg, {"detail": msg})
             # ---- 4b. input directories with unusual names
             for msg in check_special_directories(pl):
                 res.violation(msg, {"detail": msg})
@@ -237,6 +240,29 @@ def check_parse_positions(pl):
             out.append(f"the parse error ({kind}) does not identify file, line and column (expected sub/bad.pyxis:{line}:<col>): {msg[:300]}")
         elif int(m.group(1)) != line:
             out.append(f"the parse error ({kind}) is reported at line {m.group(1)}, the offending token is on line {line}: {msg[:300]}")
+    return out
+
+
+def check_add_file_paths(pl):
+    """SemanticState::add_file with a file that does not lie under the base directory it is given (an absolute path elsewhere,
+    a relative path that climbs out): a result, never a panic (C12: any sequence of public API calls)"""
+    import shutil
+    out = []
+    root = os.path.join(pl.dir, "addfile")
+    shutil.rmtree(root, ignore_errors=True)
+    os.makedirs(os.path.join(root, "in", "sub"))
+    os.makedirs(os.path.join(root, "elsewhere"))
+    open(os.path.join(root, "in", "sub", "m.pyxis"), "w").write("pub type A { x: u32 }\n")
+    open(os.path.join(root, "elsewhere", "n.pyxis"), "w").write("pub type B { y: u32 }\n")
+    cases = [("file under the base", os.path.join(root, "in"), os.path.join(root, "in", "sub", "m.pyxis")),
+             ("absolute file outside the base", os.path.join(root, "in"), os.path.join(root, "elsewhere", "n.pyxis")),
+             ("base that does not exist", "/nonexistent_base_dir", os.path.join(root, "elsewhere", "n.pyxis")),
+             ("file that does not exist", os.path.join(root, "in"), os.path.join(root, "in", "missing.pyxis")),
+             ("relative base, absolute file", "in", os.path.join(root, "in", "sub", "m.pyxis"))]
+    for what, base, path in cases:
+        p = subprocess.run([PVH, "addfile", "--base", base, "--path", path], stdout=subprocess.PIPE, stderr=subprocess.STDOUT, text=True, cwd=root)
+        if "outcome=ok" not in p.stdout and "outcome=err" not in p.stdout:
+            out.append(f"add_file ({what}: base {base}, file {path}) ends in {p.stdout.strip()[:120] or 'a crash'} instead of a result")
     return out
 
 
